@@ -52,9 +52,10 @@ Record fixes := mkFixes {
   fx_hash : bool;      (* an item's blockHash must agree with a hash already known *)
   fx_logs : bool;      (* logs: batch of < 2 elements, null result, null log are errors *)
   fx_head : bool;      (* Hash/Latest: null result is an error *)
-  fx_both : bool       (* Get: traces are requested in addition to receipts / logs (fixes/C14-2) *) }.
-Definition repaired : fixes := mkFixes true true true true true true true true.
-Definition legacy : fixes := mkFixes false false false false false false false false.
+  fx_both : bool;      (* Get: traces are requested in addition to receipts / logs (fixes/C14-2) *)
+  fx_loghdr : bool     (* logs: the header fetched with eth_getLogs must carry the hash known for that block *) }.
+Definition repaired : fixes := mkFixes true true true true true true true true true.
+Definition legacy : fixes := mkFixes false false false false false false false false false.
 
 (* ---- decoded replies *)
 Inductive reply (A : Type) : Type := RFail | RBody (a : A).
@@ -70,7 +71,7 @@ Record logr := mkLogr {
   lr_bnum : N; lr_bhash : bytes; lr_txidx : N; lr_txhash : bytes; lr_log : log }.
 Record lbatch := mkLbatch {
   lb_len : nat;                               (* number of elements of the batch reply *)
-  lb_herr : bool; lb_hpresent : bool;         (* element 0: eth_getBlockByNumber(toBlock) *)
+  lb_herr : bool; lb_hdr : option bytes;      (* element 0: eth_getBlockByNumber(toBlock); None: null result, Some h: its hash *)
   lb_lerr : bool; lb_logs : option (list (option logr)) }.  (* element 1; inner None: a null log *)
 Record tracer := mkTracer {
   tr_bnum : N; tr_bhash : bytes; tr_txidx : N; tr_txhash : bytes; tr_pl : payload }.
@@ -278,6 +279,13 @@ Fixpoint logs_scan (fx : fixes) (start limit : N) (ls : list (option logr)) : ou
       if in_range start limit (lr_bnum l) then do rest <- logs_scan fx start limit r; Ok (l :: rest) else Err
   end.
 
+(* the block toBlock is in the blockmap with a known hash other than the one of the header fetched with the logs *)
+Definition hdr_skew (n : N) (h : bytes) (bs : list block) : bool :=
+  match bm_get n bs with
+  | Some b => negb (is_nil (b_hash b)) && negb (bytes_eqb (b_hash b) h)
+  | None => false
+  end.
+
 Definition logs (fx : fixes) (start limit : N) (r : reply lbatch) (bs : list block) : outcome (list block) :=
   match r with
   | RFail => Err
@@ -285,13 +293,18 @@ Definition logs (fx : fixes) (start limit : N) (r : reply lbatch) (bs : list blo
       if (lb_len lb <? 2)%nat then (if fx_logs fx then Err else Panic)
       else if lb_herr lb then Err
       else if lb_lerr lb then Err
-      else if negb (lb_hpresent lb) then Err
       else
-        match lb_logs lb with
-        | None => if fx_logs fx then Err else Ok bs
-        | Some ls =>
-            do ok <- logs_scan fx start limit ls;
-            logs_groups fx (group_by (fun l => (lr_bnum l, lr_txidx l)) ok) bs
+        match lb_hdr lb with
+        | None => Err
+        | Some h =>
+            match lb_logs lb with
+            | None => if fx_logs fx then Err else Ok bs
+            | Some ls =>
+                if fx_loghdr fx && hdr_skew (start + limit - 1) h bs then Err
+                else
+                  do ok <- logs_scan fx start limit ls;
+                  logs_groups fx (group_by (fun l => (lr_bnum l, lr_txidx l)) ok) bs
+            end
         end
   end.
 
